@@ -12,7 +12,7 @@
    last word are tied to the code by the correspondence run and the Spec
    oracle only (notes/C11.md). *)
 From Coq Require Import List ZArith.
-From RtoscV Require Import Pretty.Tok Pretty.FloatFmt Pretty.FloatArith Pretty.FloatRangeProofs Pretty.PrintModel Pretty.ScanModel
+From RtoscV Require Import Pretty.Tok Pretty.FloatFmt Pretty.FloatArith Pretty.FloatRangeProofs Pretty.PrintModel Pretty.ScanModel Pretty.FloatRangeWitness
   Pretty.Grammar Pretty.PrettyProofs Pretty.RunProofs Pretty.GrammarProofs.
 Import ListNotations.
 Local Open Scope Z_scope.
@@ -149,3 +149,17 @@ Theorem C11_typed_range_examples : forall (dec2f dec2d : list Z -> Z),
    = Ok ([VFl 1056964608; VRep 3 1; VFl 1056964608; VFl 1065353216; VRep 3 1; VFl 1065353216; VFl 1077936128], [])) /\
   count_printed_arg_vals dec2f dec2d ex_double_unit = Ok (false, 2).
 Proof. exact typed_range_examples. Qed.
+
+
+(* finding float-range-inexact-step: "0.1 0.2 ... 0.5" (exact values spelt out)
+   scanned, printed by the real printer (fri_reprint, the P2 field of the
+   corpus line corpus/C11/float-range-inexact.txt) and scanned again gives other
+   values: the element 0.4 is 0x3ecccccd in the first scan and 0x3ecccccd + 1 ulp
+   in the second (start shifted by one element, step re-derived as 0.3 - 0.2).
+   C11_reprint_partial excludes it with compress o = false. *)
+Theorem C11_float_range_inexact_refuted :
+  scan_arg_vals fri_no_oracle fri_no_oracle fri_text 4 = Ok (fri_first, []) /\
+  scan_arg_vals fri_no_oracle fri_no_oracle fri_reprint 4 = Ok (fri_second, []) /\
+  range_arg_x (VFl 1036831949) (VFl 1045220557) 2 = Some (VFl 1053609165) /\
+  range_arg_x (VFl 1036831950) (VFl 1050253722) 1 = Some (VFl 1053609166).
+Proof. exact float_range_inexact. Qed.
